@@ -286,3 +286,45 @@ def x7(ctx):
                           "skips such a member): the first query that takes the index path raises KeyError, and is-not-defined filters "
                           "then match the unparseable member" % (checks[0].text()[:60] if checks else "")))
     return obs
+
+
+@rule("C10", "X6", floor=1, kind="S",
+      desc="per-key-group state in AutoIndexManager.find_present_keys is reset on every iteration (no value carried "
+           "over from the previous key group)")
+def x6(ctx):
+    from .common import carried_uses
+    fi = ctx.own_method("xandikos.store.index.AutoIndexManager", "find_present_keys")
+    cfg = ctx.cfg(fi)
+    outer = [n for n in cfg.nodes if n.kind == "for" and dotted(n.ast.iter) == fi.params[1]]
+    if not outer:
+        raise AnalysisError("find_present_keys: loop over the necessary keys not found")
+    lp = outer[0]
+    obs = []
+    # flags: names assigned a boolean constant inside the loop and tested inside the loop
+    from .common import loop_body_nodes
+    body = loop_body_nodes(cfg, lp)
+    flags = set()
+    for n in cfg.nodes:
+        if n.id in body and n.kind == "stmt" and isinstance(n.ast, ast.Assign) and isinstance(n.ast.value, ast.Constant) and isinstance(n.ast.value.value, bool):
+            for t in n.ast.targets:
+                if isinstance(t, ast.Name):
+                    flags.add(t.id)
+    for n in cfg.nodes:
+        if n.kind == "test" and n.id in body:
+            for x in ast.walk(n.ast):
+                if isinstance(x, ast.Name) and x.id not in flags:
+                    # a name tested in the loop and assigned a boolean anywhere in the function
+                    for m in cfg.stmt_nodes():
+                        if m.kind == "stmt" and isinstance(m.ast, ast.Assign) and isinstance(m.ast.value, ast.Constant) and isinstance(m.ast.value.value, bool) \
+                                and any(isinstance(t, ast.Name) and t.id == x.id for t in m.ast.targets):
+                            flags.add(x.id)
+    if not flags:
+        raise AnalysisError("find_present_keys: no per-group flag found")
+    for v in sorted(flags):
+        cu = carried_uses(cfg, lp, v)
+        obs.append(ctx.ob(not cu, fi.qualname, where(fi, lp), "flag `%s` is reset for every key group" % v,
+                          "every use of `%s` in the loop is preceded by an assignment in the same iteration" % v,
+                          "`%s` is tested at line %d with a value that can come from the previous key group (it is not reset inside the loop): once "
+                          "one group is found in the index every later group is treated as present, and the filter is answered from an index that "
+                          "lacks its keys" % (v, cu[0].lineno if cu else 0)))
+    return obs
